@@ -117,6 +117,9 @@ pub enum Cls {
     Wm2,
     /// Dimensionless per-step factor in [0,1] (f_match)
     Unit,
+    /// Annual building need (DEMANDA) [kWh] and per m2
+    N,
+    Nm2,
 }
 
 #[derive(Clone, Debug, Default)]
@@ -156,15 +159,15 @@ impl Fl<'_> {
     }
 }
 
-fn flat_balance(f: &mut Fl, p: &str, b: &cteepbd::types::Balance, e: Cls, w: Cls) {
+fn flat_balance(f: &mut Fl, p: &str, b: &cteepbd::types::Balance, e: Cls, w: Cls, n: Cls) {
     if let Some(v) = b.needs.ACS {
-        f.s(format!("{p}.needs.ACS"), v, e);
+        f.s(format!("{p}.needs.ACS"), v, n);
     }
     if let Some(v) = b.needs.CAL {
-        f.s(format!("{p}.needs.CAL"), v, e);
+        f.s(format!("{p}.needs.CAL"), v, n);
     }
     if let Some(v) = b.needs.REF {
-        f.s(format!("{p}.needs.REF"), v, e);
+        f.s(format!("{p}.needs.REF"), v, n);
     }
     f.s(format!("{p}.used.epus"), b.used.epus, e);
     f.s(format!("{p}.used.nepus"), b.used.nepus, e);
@@ -221,8 +224,8 @@ pub fn flatten(ep: &EnergyPerformance) -> Flat {
     let mut items = BTreeMap::new();
     {
         let mut f = Fl { out: &mut items };
-        flat_balance(&mut f, "balance", &ep.balance, Cls::E, Cls::W);
-        flat_balance(&mut f, "balance_m2", &ep.balance_m2, Cls::Em2, Cls::Wm2);
+        flat_balance(&mut f, "balance", &ep.balance, Cls::E, Cls::W, Cls::N);
+        flat_balance(&mut f, "balance_m2", &ep.balance_m2, Cls::Em2, Cls::Wm2, Cls::Nm2);
         for (cr, b) in &ep.balance_cr {
             let p = format!("cr.{}", cr);
             f.s(format!("{p}.carrier_matches_key"), if b.carrier == *cr { 1.0 } else { 0.0 }, Cls::Unit);
